@@ -321,3 +321,19 @@ func init() {
 		return 0
 	}
 }
+
+func init() {
+	devHooks["hashfresh"] = func(p *Prog, fnPat, untr string) int {
+		r := NewReport("DEV", "quick", 0)
+		RunHashFresh(p, r, func(pkg string) bool { return strings.Contains(pkg, fnPat) })
+		RunHashKill(p, r, func(pkg string) bool { return strings.Contains(pkg, fnPat) })
+		for _, o := range r.Obls {
+			st := "ok"
+			if !o.OK {
+				st = "FAIL"
+			}
+			fmt.Printf("%s %s %s %s %s\n", st, o.Rule, o.Pos, strings.TrimPrefix(o.Func, modPath+"/"), o.Key)
+		}
+		return 0
+	}
+}
